@@ -230,14 +230,18 @@ def refresh_cycles(tier):
                 for cycles in (2, 3):
                     for nvar in (2, 3):
                         order = [first] + [v for v in (1, 2, 3)[:nvar] if v != first]
+                        # the validator of the variant that is refreshed: a strong entity-tag, a weak one, one that is not
+                        # well-formed, or Last-Modified alone - each is what the conditional request is built from
+                        et, lm = [(1, NONE), (8, NONE), (7, NONE), (0, 50)][i % 4]
                         steps = []
                         for v in order:
-                            steps += [{"op": "req", "rq": rq(sel=[0, 0, v, 0]), "ans": [ans(ccp=1, ma=5 if v == 1 else 100000, swr=swr, etag=v, vary=[2])]},
+                            steps += [{"op": "req", "rq": rq(sel=[0, 0, v, 0]),
+                                       "ans": [ans(ccp=1, ma=5 if v == 1 else 100000, swr=swr, etag=et if v == 1 else v, lm=lm if v == 1 else NONE, vary=[2])]},
                                       {"op": "tick", "d": 1}]
                         for c in range(cycles):
                             k = how if how != "mixed" else ("304" if c % 2 == 0 else "full")
-                            a = ans(k="304", st=304, ccp=1, ma=5, swr=swr, etag=1) if k == "304" else ans(ccp=1, ma=5, swr=swr, etag=1, vary=[2])
-                            steps += [{"op": "tick", "d": 9}, {"op": "req", "rq": rq(sel=[0, 0, 1, 0]), "ans": [a, ans(ccp=1, ma=5, swr=swr, etag=1, vary=[2])]},
+                            a = ans(k="304", st=304, ccp=1, ma=5, swr=swr, etag=et) if k == "304" else ans(ccp=1, ma=5, swr=swr, etag=et, lm=lm, vary=[2])
+                            steps += [{"op": "tick", "d": 9}, {"op": "req", "rq": rq(sel=[0, 0, 1, 0]), "ans": [a, ans(ccp=1, ma=5, swr=swr, etag=et, lm=lm, vary=[2])]},
                                       {"op": "tick", "d": 1}]
                         for v in (2, 3)[:nvar - 1] + (1,):
                             steps += [{"op": "req", "rq": rq(sel=[0, 0, v, 0]), "ans": [ans(ccp=1, ma=100000, etag=7, vary=[2])]}]
